@@ -395,6 +395,10 @@ struct event_base {
 
 	/** "Prepare" and "check" watchers. */
 	struct evwatch_list watchers[EVWATCH_MAX];
+	/** While the loop is invoking watchers of one type: the watcher to
+	 * invoke next.  evwatch_free() advances it, so that a watcher may free
+	 * itself or any other watcher from inside a watcher callback. */
+	struct evwatch *watcher_iter_next[EVWATCH_MAX];
 };
 
 struct event_config_entry {
